@@ -1,6 +1,7 @@
 // C17 — CRC routines equal their mathematical definitions and read only the
 // given bytes. Targets: crc (random), crc_enum (exhaustive small spaces).
 #include "vpbt.h"
+#include <vector>
 #include <igris/util/crc.h>
 
 using namespace vpbt;
@@ -154,6 +155,40 @@ static void check_all(Case &c, const uint8_t *msg, size_t n, size_t off, uint32_
         Placed tail(msg + ws, n - ws, (off + ws) & 7);
         VP_CHECK(igris_crc32(tail.d, (uint32_t)(n - ws), mid) == v, "crc32_chain",
                  "word split=%zu", ws);
+    }
+    // a buffer changed in place and checksummed again (a sequence number bumped, a retry counter set): the second call, with
+    // the same pointer, length and seed, answers for the bytes that are there now
+    if (n >= 1)
+    {
+        size_t at = split < n ? split : n - 1;
+        std::vector<uint8_t> msg2(msg, msg + n);
+        msg2[at] = (uint8_t)(msg2[at] + 1 + (seed & 0x3f));
+        uint8_t *d = m.d;
+        if (n <= 255)
+        {
+            uint8_t b0 = igris_crc8(d, (uint8_t)n, s8), t0 = igris_crc8_table(d, (uint8_t)n, s8), c0 = igris_mmc_crc7(d, (uint8_t)n);
+            d[at] = msg2[at];
+            uint8_t b1 = igris_crc8(d, (uint8_t)n, s8), t1 = igris_crc8_table(d, (uint8_t)n, s8), c1 = igris_mmc_crc7(d, (uint8_t)n);
+            d[at] = msg[at];
+            VP_CHECK(b1 == ref_crc8_dallas(msg2.data(), n, s8) && t1 == b1 && c1 == ref_crc7(msg2.data(), n), "crc_after_in_place_change",
+                     "byte %zu changed in place: crc8 %02x->%02x (ref %02x), table %02x->%02x, crc7 %02x->%02x (ref %02x)", at, b0, b1, ref_crc8_dallas(msg2.data(), n, s8), t0, t1,
+                     c0, c1, ref_crc7(msg2.data(), n));
+        }
+        if (n <= 65535)
+        {
+            uint16_t v0 = igris_crc16(d, (uint16_t)n, s16);
+            d[at] = msg2[at];
+            uint16_t v1 = igris_crc16(d, (uint16_t)n, s16);
+            d[at] = msg[at];
+            VP_CHECK(v1 == ref_crc16(msg2.data(), n, s16), "crc_after_in_place_change", "byte %zu changed in place: crc16 %04x->%04x, ref %04x", at, v0, v1,
+                     ref_crc16(msg2.data(), n, s16));
+        }
+        uint32_t w0 = igris_crc32(d, (uint32_t)n, seed);
+        d[at] = msg2[at];
+        uint32_t w1 = igris_crc32(d, (uint32_t)n, seed);
+        d[at] = msg[at];
+        VP_CHECK(w1 == ref_crc32(msg2.data(), n, seed), "crc_after_in_place_change", "byte %zu changed in place: crc32 %08x->%08x, ref %08x", at, w0, w1,
+                 ref_crc32(msg2.data(), n, seed));
     }
     // streaming chain
     {
